@@ -296,8 +296,13 @@ class Verdict:
             trace_mismatches=self.trace_mismatches[:10], harness_errors=self.harness_errors[:5],
         )
         cov.update(jsonable(self.extra))
-        if cov["states"] < 1:
-            cov["states"] = 0
+        cov["transitions"] = agg["branch_points"] + agg["forks"]
+        if cov["states"] < 1 or cov["transitions"] < 1:
+            # the schema's model-checking keys need >= 1; without them the generic counts (evaluations,
+            # distinct_nontrivial) describe the run
+            cov.pop("transitions", None) if cov["transitions"] < 1 else None
+            if cov["states"] < 1:
+                cov.pop("states", None)
         ev = dict(property_id=self.prop, tier=self.tier, seed=self.seed, level=level, coverage=cov,
                   assumptions=self.assumptions, wall_s=round(wall, 2), violations=len(seen))
         os.makedirs(os.path.join(VERIF, "evidence"), exist_ok=True)
